@@ -75,7 +75,9 @@ class Run:
 
     def bad(self, rule, construct, loc, msg, stmt=""):
         self.obligations.append((rule, construct, False, msg, loc))
-        self.findings.append(Finding(rule, construct, loc, msg, stmt))
+        f = Finding(rule, construct, loc, msg, stmt)
+        if not any(g.key() == f.key() and g.loc == f.loc and g.msg == f.msg for g in self.findings):
+            self.findings.append(f)
 
     def check(self, cond, rule, construct, loc, detail_ok, msg_bad=None, stmt=""):
         if cond:
